@@ -122,6 +122,31 @@ func RunShards(p *Prop, pc *ParentCtx, extraEnv []string) *Aggregate {
 		}(i, slot)
 	}
 
+	// shards re-run on ONE processor (GOMAXPROCS=1: a one-CPU container): code that asks how many processors there are and
+	// takes another path on one is only wrong there
+	if extraEnv == nil {
+		step := 6
+		if pc.Tier == "thorough" {
+			step = 2
+		}
+
+		for i := int((pc.Seed + 3) % uint64(step)); i < NShards; i += step {
+			wg.Add(1)
+
+			outs = append(outs, childOutcome{})
+			slot := len(outs) - 1
+			agg.Counters["shards-also-run-with-GOMAXPROCS=1"]++
+
+			go func(i, slot int) {
+				defer wg.Done()
+				sem <- struct{}{}
+				defer func() { <-sem }()
+
+				outs[slot] = runChildEnv(p, pc, i, []string{"GOMAXPROCS=1"}, ".1cpu")
+			}(i, slot)
+		}
+	}
+
 	// extra processes that do nothing but the cold start (first use of the library in a fresh process, concurrently):
 	// first-use races are a property of a process, so the sample size is the number of processes
 	coldSem := make(chan struct{}, 2)
